@@ -140,14 +140,16 @@ Example dup_tx_changes_nothing :
         uidx st' n_emp n_name = uidx st3 n_emp n_name /\ ids_of st' n_emp = ids_of st3 n_emp
   end.
 Proof. vm_compute. repeat split; reflexivity. Qed.
-(* a hook registered BEFORE the unique index may fail first: on dept the fk-restrict hook precedes title's
-   unique index, on emp nick's index follows name's; a duplicate nick together with a duplicate name
-   reports the name *)
+(* several constraints object (name x is held by b; the non-nullable fk index on dept gets an empty
+   value): the one registered first - name's unique index - is the one that reports *)
 Example dup_first_index_reports :
   run_op idx_schema 8 (mkOctx false []) (st3, [])
-    (OCreate n_emp [99] false [(n_name, Some [120]); (n_nick, None); (n_boss, None); (n_deptf, Some [100])] [(n_roles, [])])
-  = Err EDuplicate.
-Proof. vm_compute. reflexivity. Qed.
+    (OCreate n_emp [99] false [(n_name, Some [120]); (n_nick, None); (n_boss, None); (n_deptf, Some [])] [(n_roles, [])])
+  = Err EDuplicate /\
+  run_op idx_schema 8 (mkOctx false []) (st3, [])
+    (OCreate n_emp [99] false [(n_name, Some [119]); (n_nick, None); (n_boss, None); (n_deptf, Some [])] [(n_roles, [])])
+  = Err EOther.
+Proof. vm_compute. split; reflexivity. Qed.
 
 (* name is a non-nullable unique index: hypotheses of nonnull_unique_never_empty *)
 Example name_is_nonnull_unique : In (CUnique n_name false) (cons_of idx_schema n_emp).
@@ -161,3 +163,20 @@ Proof. vm_compute. split; reflexivity. Qed.
 Example nil_nicks_coexist :
   uidx st3 n_emp n_nick = [] /\ ids_of st3 n_emp = [[97]; [98]].
 Proof. vm_compute. split; reflexivity. Qed.
+
+(* ---------------------------------------------------------------- the well-formedness hypothesis is needed *)
+(* a set index declared on the back-reference set "reports" (maintained by the fk index on boss, not by
+   PersistEntity) is NOT kept in step: [wf_setidx_b] rejects this schema (idx_schema_wf_reports_rejected)
+   and indeed the mirror statement fails on it *)
+Definition bad_schema : schema :=
+  map (fun d => if str_eqb (sd_name d) n_emp then mkSdef (sd_name d) (sd_parent d) (sd_ext d) (sd_fields d) (sd_sets d)
+                   (CSetIdx n_reports :: sd_cons d) (sd_links d) else d) idx_schema.
+Definition bad_hist : list tx :=
+  [ mkTx false [] [OCreate n_dept [100] false [(n_title, Some [116])] [(n_tagsx, [])]] false;
+    mkTx false [] [mk_emp [97] [120]] false;
+    mkTx false [] [OCreate n_emp [98] false [(n_name, Some [121]); (n_nick, None); (n_boss, Some [97]); (n_deptf, Some [100])] [(n_roles, [])]] false ].
+Example set_index_on_backref_set_not_mirrored :
+  let st := run_txs bad_schema 8 st_empty bad_hist in
+  wf_setidx_b bad_schema n_emp n_reports = false /\
+  get_set bad_schema st n_emp [97] n_reports = [[98]] /\ sidx st n_emp n_reports = [].
+Proof. vm_compute. repeat split; reflexivity. Qed.
